@@ -32,8 +32,9 @@ LEVEL_TEXT = (
     "resolve_args_list, _fix_null_cmd_bytes) is proved: raw literal = one verbatim argument, non-raw = one argument = documented "
     "expansion, @() injection verbatim / one per element / in place for ALL values, word count and order, alias argv = Popen argv "
     "without NUL. PARTIAL + counterexample (open findings): `a@(x)b` (globbed / expanded), macro text (cut at U+000B/000C/001C-1E/0085/"
-    "2028/2029; parser crash after an extend atom), raw f-strings (expanded: the PEP 701 rule drops is_raw — dual-variant model driven "
-    "by the translated fact). Tie: generated atom lists -> source text -> real Execer.exec with a recording alias and a real child "
+    "2028/2029; parser crash after an extend atom), raw f-strings (expanded: the PEP 701 rule drops is_raw). The last three are "
+    "dual-variant: three facts translated from the parser source select the variant, the full statements (C04_macro_raw, "
+    "C04_raw_fstring_partial) are proved for the repaired one, so a correct repair turns the finding off instead of raising an alarm. Tie: generated atom lists -> source text -> real Execer.exec with a recording alias and a real child "
     "process; both argv's are compared with the Lean model, with each other and with the property oracle (what was written)."
 )
 LEVEL_NOTE = (
@@ -45,7 +46,11 @@ LEVEL_NOTE = (
     "tuples in resolve_args_list, lines that are also valid Python (their Python / subprocess decision is C02 / C03: written as ![...] here)."
 )
 
-FSTR_KEEPS_RAW = [False]  # set by translate(): does FStringRules.p_fstring_expr put `is_raw` on the node (then fr"…" is not expanded)
+# translated facts selecting the model variant, set by translate() (defaults = the code as it is at the time of writing):
+FSTR_KEEPS_RAW = [False]  # does FStringRules.p_fstring_expr put `is_raw` on the node (then fr"…" is not expanded)?
+LINES_CUT_AT_LB = [True]  # does BaseParser.lines use str.splitlines (then macro text is cut at U+000C, U+2028 …)?
+BANG_NEEDS_LIST = [True]  # does _append_subproc_bang append to `.elts` (then a macro tail after an extend atom crashes the parser)?
+DOCUMENTED = [True, False, False]  # the variant the documentation describes
 LB = [0x0B, 0x0C, 0x1C, 0x1D, 0x1E, 0x85, 0x2028, 0x2029]  # str.splitlines boundaries other than \n \r
 QUOTES = {"s1": "'", "d1": '"', "s3": "'''", "d3": '"""'}
 PY_KEYWORD_WORDS = {"and", "or"}
@@ -804,7 +809,8 @@ def fs_ok(s):
 
 def call_model(ctx, ses, atoms, bang, bang_lbb, blob, keeps=None):
     """-> None (a literal is outside the model) | "crash" (the model says the parser raises) | (alias argv, popen argv)"""
-    m = ctx.driver.call("c04.cmd", ses.envspec(blob), ses.globspec(), FSTR_KEEPS_RAW[0] if keeps is None else keeps, [atom_sx(a) for a in atoms],
+    flags = [FSTR_KEEPS_RAW[0], LINES_CUT_AT_LB[0], BANG_NEEDS_LIST[0]] if keeps is None else DOCUMENTED
+    m = ctx.driver.call("c04.cmd", ses.envspec(blob), ses.globspec(), flags, [atom_sx(a) for a in atoms],
                         None if bang is None else [Sym("some"), [bang_lbb, codes(bang)]])
     if m is None:
         return None
@@ -1402,12 +1408,13 @@ def check_captured(ctx, ses, name, i, text, quoted, edge):
             mid = [t for t in got[1:-1] if t.strip()]
             ref = plain if not quoted else [t.strip() for t in lexed if t.strip()]
             # (the keyword is one character longer than the operator, so the next token may also be glued on: compare without blanks)
-            explained = "".join(g.strip() for g in mid) == "".join({"&&": "and", "||": "or"}.get(r, r) for r in ref)
+            spellings = ("".join({"&&": "and", "||": "or"}.get(r, r) for r in ref), "".join(ref))  # (`&&` as the lexer's keyword, or as written)
+            explained = "".join(g.strip() for g in mid) == spellings[0]
             if got == ["pre"] + lexed + ["post"] and explained and (edge or "&&" in plain or "||" in plain):
                 # exactly what the session's own Lexer.split answers, and the only differences are its known artefacts
                 key = "captured-inject-lexer-split-artifacts"
             elif got == ["pre"] + lexed + ["post"] and any(ws_errortoken(l) for l in text.splitlines()) and \
-                    "".join("".join(g.split()) for g in mid) == "".join({"&&": "and", "||": "or"}.get(r, r) for r in ref):
+                    "".join("".join(g.split()) for g in mid) in spellings:
                 key = "whitespace-run-before-untokenizable-char"  # the same tokenizer artefact, met by Lexer.split
             ctx.spec_failure(case, {"argv": got, "tokens_of_the_output": want[1:-1]}, "@$() did not deliver the white-space separated tokens of the captured output verbatim", key)
 
@@ -1430,6 +1437,7 @@ def stream_literals(ctx, n, name="literal-evaluation"):
     alpha = list("\\\\\\\\''\"\"nrtxuUN01789abfAF{} \n\t\r\u00e9\U0001d11e#$~*")
 
     def single(lit):
+        lit = lit.replace("\r\n", "\n").replace("\r", "\n")  # (the compiler reads source with universal newlines; the tokenize module does not)
         try:
             toks = [t for t in tokenize.generate_tokens(io.StringIO(lit).readline) if t.type not in (tokenize.NEWLINE, tokenize.ENDMARKER, tokenize.NL)]
         except Exception:  # noqa: BLE001
@@ -1458,7 +1466,9 @@ def stream_literals(ctx, n, name="literal-evaluation"):
         m = None if m is None else uncodes(m[1])
         ctx.case(name, (i, lit), "\\" in body or "'" in body or '"' in body, {"literal": lit[:80]})
         ctx.count("literal/" + ("roundtrip" if want_rt is not None else ("model-some" if m is not None else "model-none")))
-        bad = (m is not None and m != v) or (m is None and v is not None and single(lit) and "\\N" not in body)
+        # (a body that begins with two quote characters turns a single-quoted literal into a triple-quoted one: a different literal)
+        restyled = q in ("s1", "d1") and body.startswith(QUOTES[q] * 2)
+        bad = (m is not None and m != v) or (m is None and v is not None and single(lit) and "\\N" not in body and not restyled)
         if want_rt is not None and m != want_rt:
             bad = True
         if bad:
@@ -1519,7 +1529,7 @@ def stream_helpers(ctx, ses, n, name="runtime-helpers"):
         ctx.case(name, (i, "inject", repr(v)), True, {"value": repr(pyval_obj(v))[:80] if v[0] != "gen" else "generator"})
         if got != exp:
             ctx.spec_failure({"stream": name, "value": v}, {"list_of_strs_or_callables": got, "written": exp}, "@() does not deliver the value verbatim, one argument per element", None)
-        m = ctx.driver.call("c04.cmd", ses.envspec(""), [], False, [[Sym("inject"), sx]], None)
+        m = ctx.driver.call("c04.cmd", ses.envspec(""), [], DOCUMENTED, [[Sym("inject"), sx]], None)
         if [uncodes(x) for x in m[1]] != got:
             ctx.disagree(name, {"stream": name, "value": v}, got, [uncodes(x) for x in m[1]])
         # resolve_args_list + _fix_null_cmd_bytes on a cmd with list-valued entries
@@ -1563,6 +1573,8 @@ def translate(ctx):
     common.write_if_changed(common.module_path("XonshVerif.Gen.ArgTables"), text)
     ctx.fingerprints.update(fps)
     FSTR_KEEPS_RAW[0] = bool(fps.get("fstring_keeps_is_raw"))
+    LINES_CUT_AT_LB[0] = bool(fps.get("lines_use_splitlines"))
+    BANG_NEEDS_LIST[0] = bool(fps.get("bang_appends_to_elts"))
     ctx.translator_errors += errors
     ctx.trusted_base.append("translator/c04.py (regex pattern dump, atom-action / cliarg-action tables walked from the parser AST, glob trigger, NUL replacement, str.isspace table)")
 
